@@ -83,6 +83,7 @@ def execute(ctx, scn, events, tids, next_tid, data=None):
     inp = d / "env.suit"
     data = content(scn["size"], scn["seed"]) if data is None else data   # (the pipeline check G05 supplies real envelopes)
     inp.write_bytes(data)
+    core.through_link(inp, scn.get("seed", 0) % 5 == 3)
     st, pf = d / "storage.hex", d / "part.hex"
     err = None
     if scn.get("stale"):
